@@ -637,6 +637,10 @@ class Interp:
             return [(state, ("continue",))]
         if isinstance(st, ast.Global):
             return [(state, None)]
+        if isinstance(st, ast.Delete):
+            for t in st.targets:
+                self.delete(t, state, rel)
+            return [(state, None)]
         state.notes.append(f"statement {type(st).__name__} not modelled at {core.loc(rel, st)}")
         raise _Unmodelled(f"statement {type(st).__name__} at {core.loc(rel, st)}")
 
@@ -729,6 +733,57 @@ class Interp:
                 state.effects.append(("mutates-input", core.src(target)))
             return
         state.effects.append(("assign-unmodelled", core.src(target)))
+
+    def delete(self, t: ast.expr, state: State, rel: str) -> None:
+        if isinstance(t, ast.Name):
+            state.env.pop(t.id, None)
+            return
+        if isinstance(t, ast.Subscript):
+            base = self.eval(t.value, state, rel)
+            if isinstance(base, (GenericList, TableV)):
+                state.effects.append(("mutates-input", core.src(t)))
+                return
+            if isinstance(base, MapV):
+                key = self.key_for(base, self.eval(t.slice, state, rel))
+                if key is _MISSING or base.unknown:
+                    base.unknown = base.unknown or "entry deleted under a symbolic key"
+                elif key in base.entries:
+                    del base.entries[key]
+                else:
+                    raise _Raise(ExcV("KeyError", repr(key)), state)
+                return
+            if isinstance(base, ListV):
+                state.effects.append(("store", (base, None, None, state.binders)))
+                items = self.plain_items(base) if not base.unordered else None
+                if items is None or state.binders:
+                    base.unknown = base.unknown or "deletion from a list that is not known element by element"
+                    return
+                n = len(items)
+                if isinstance(t.slice, ast.Slice):
+                    def bnd(x):
+                        if x is None:
+                            return None
+                        v = self.eval(x, state, rel)
+                        return v.const if isinstance(v, Lin) and v.is_const() else _MISSING
+                    lo, hi, stp = bnd(t.slice.lower), bnd(t.slice.upper), bnd(t.slice.step)
+                    if _MISSING in (lo, hi, stp):
+                        base.unknown = "deletion of a slice with bounds that are not constants"
+                        return
+                    keep = [i for i in range(n) if i not in set(range(n)[slice(lo, hi, stp)])]
+                else:
+                    idx = self.eval(t.slice, state, rel)
+                    if not (isinstance(idx, Lin) and idx.is_const()):
+                        base.unknown = "deletion at a position that is not a constant"
+                        return
+                    if not (-n <= idx.const < n):
+                        raise _Raise(ExcV("IndexError", "list assignment index out of range"), state)
+                    k = idx.const % n
+                    keep = [i for i in range(n) if i != k]
+                base.segs[:] = [Seg(items[i]) for i in keep]
+                base.stores.clear()
+                base.alloc_len = None
+                return
+        raise _Unmodelled(f"del {core.src(t)} at {core.loc(rel, t)}")
 
     # -- try / except ---------------------------------------------------------------
     _EXC_PARENTS = {"KeyError": "LookupError", "IndexError": "LookupError", "ZeroDivisionError": "ArithmeticError", "OverflowError": "ArithmeticError",
@@ -1240,15 +1295,19 @@ class Interp:
         if isinstance(e, ast.Compare):
             return self.compare_expr(e, state, rel)
         if isinstance(e, ast.IfExp):
+            if id(e) in state.call_memo:
+                return state.call_memo.pop(id(e))
             alts = self.branch(e.test, state, rel)
             if len(alts) == 1:
                 truth, s2 = alts[0]
+                if s2 is not state:
+                    state.become(s2)
                 return self.eval(e.body if truth else e.orelse, state, rel)
-            a = self.eval(e.body, state, rel)
-            b = self.eval(e.orelse, state, rel)
-            if isinstance(a, Lin) and isinstance(b, Lin) and a == b:
-                return a
-            return Unknown("conditional expression on an undecided condition")
+            # undecided: one continuation per alternative, each with the value of its own branch (and the condition on its path)
+            forks = []
+            for truth, s2 in alts:
+                forks.append((s2, e, self.eval(e.body if truth else e.orelse, s2, rel)))
+            raise _Fork(forks)
         if isinstance(e, ast.Call):
             return self.call(e, state, rel)
         if isinstance(e, ast.Subscript):
@@ -2110,6 +2169,16 @@ class Interp:
                         raise _Raise(ExcV("KeyError", "set.remove of a missing element"), state)
                     recv.segs[:] = keep
                     return NONE
+                if f.attr in ("difference_update", "intersection_update") and len(args) == 1:
+                    other = args[0]
+                    if isinstance(other, GenV):
+                        other = self.materialise(other, state)
+                    res_ = self.set_op(ast.Sub() if f.attr == "difference_update" else ast.BitAnd(), recv, other)
+                    if isinstance(res_, ListV):
+                        recv.segs[:] = res_.segs
+                    else:
+                        recv.unknown = f"set.{f.attr} not decided element by element"
+                    return NONE
                 if f.attr == "copy" and not args:
                     return ListV(list(recv.segs), recv.unknown, unordered=True)
                 if f.attr in ("union", "difference", "intersection") and len(args) == 1:
@@ -2159,6 +2228,13 @@ class Interp:
                     if not recv.segs or not (-len(recv.segs) <= i_ < len(recv.segs)):
                         raise _Raise(ExcV("IndexError", "pop from empty list" if not recv.segs else "pop index out of range"), state)
                     return recv.segs.pop(i_).elem
+                if f.attr == "popleft" and not args and self.plain_items(recv) is not None and not state.binders:
+                    if not recv.segs:
+                        raise _Raise(ExcV("IndexError", "pop from an empty deque"), state)
+                    return recv.segs.pop(0).elem
+                if f.attr == "appendleft" and len(args) == 1 and self.plain_items(recv) is not None and not state.binders:
+                    recv.segs.insert(0, Seg(args[0]))
+                    return NONE
                 if f.attr == "insert" and len(args) == 2 and self.plain_items(recv) is not None and not state.binders \
                         and isinstance(args[0], Lin) and args[0].is_const():
                     recv.segs.insert(args[0].const, Seg(args[1]))
@@ -2290,6 +2366,34 @@ class Interp:
                 return v
         if fn.module == "<operator>" and fn.name in ("index", "pos") and len(args) == 1 and isinstance(args[0], Lin):
             return args[0]
+        if fn.module == "<math>" and fn.name == "prod" and 1 <= len(args) <= 2 and set(kwargs) <= {"start"}:
+            xs = args[0]
+            if isinstance(xs, GenV):
+                xs = self.materialise(xs, state)
+            its = self.plain_items(xs)
+            acc = kwargs.get("start", args[1] if len(args) == 2 else Lin(1))
+            if its is None or not isinstance(acc, Lin) or not all(isinstance(x, Lin) for x in its):
+                return Unknown("math.prod of a sequence that is not known element by element")
+            for x in its:
+                acc = self.binop(ast.Mult(), acc, x, state, node)
+                if not isinstance(acc, Lin):
+                    return Unknown("math.prod: product of two symbolic values")
+            return acc
+        if fn.module == "<functools>" and fn.name == "reduce" and 2 <= len(args) <= 3 and not kwargs:
+            xs = args[1]
+            if isinstance(xs, GenV):
+                xs = self.materialise(xs, state)
+            its = self.plain_items(xs)
+            if its is None or (not its and len(args) < 3):
+                return Unknown("reduce over a sequence that is not known element by element")
+            acc = args[2] if len(args) == 3 else its[0]
+            for x in (its if len(args) == 3 else its[1:]):
+                acc = self.apply_value(args[0], [acc, x], state, node, rel)
+            return acc
+        if fn.module == "<operator>" and fn.name in ("mul", "add", "sub", "floordiv", "mod", "lshift", "rshift", "and_", "or_", "xor") and len(args) == 2 and not kwargs:
+            op_ = {"mul": ast.Mult, "add": ast.Add, "sub": ast.Sub, "floordiv": ast.FloorDiv, "mod": ast.Mod, "lshift": ast.LShift,
+                   "rshift": ast.RShift, "and_": ast.BitAnd, "or_": ast.BitOr, "xor": ast.BitXor}[fn.name]()
+            return self.binop(op_, args[0], args[1], state, node)
         if fn.module == "<itertools>" and fn.name == "groupby" and 1 <= len(args) <= 2 and set(kwargs) <= {"key"}:
             xs = args[0]
             if isinstance(xs, GenV):
@@ -2320,6 +2424,16 @@ class Interp:
                     return Unknown("chain over a sequence that is not known element by element")
                 out_.extend(Seg(x) for x in its)
             return ListV(out_)
+        if fn.module == "<collections>" and fn.name == "deque" and len(args) <= 1 and not kwargs:
+            if not args:
+                return ListV([])
+            xs = args[0]
+            if isinstance(xs, GenV):
+                xs = self.materialise(xs, state)
+            its = self.plain_items(xs)
+            if its is None or (isinstance(xs, ListV) and xs.unordered and len(its) > 1):
+                return Unknown("deque of a sequence that is not known element by element")
+            return ListV([Seg(x) for x in its])
         if fn.module == "<collections>" and fn.name == "Counter" and len(args) <= 1 and not kwargs:
             m_ = MapV({}, factory="int")
             if args:
@@ -2460,6 +2574,29 @@ class Interp:
             args = [ListV([Seg(Lin(i_)) for i_ in range(args[0].lo.const, args[0].hi.const, args[0].step)])]
         if name == "sorted" and len(args) == 1 and isinstance(args[0], GenV):
             args = [self.materialise(args[0], state)]
+        if name in ("any", "all") and len(args) == 1 and not kwargs:
+            xs = args[0]
+            if isinstance(xs, GenV):
+                xs = self.materialise(xs, state)
+            its = self.plain_items(xs)
+            if its is None:
+                return Unknown(f"{name}() of a sequence that is not known element by element")
+            open_ = False
+            for x in its:
+                if isinstance(x, Lin) and x.is_const():
+                    x = x.const != 0
+                if isinstance(x, NoneV):
+                    x = False
+                if not isinstance(x, bool):
+                    open_ = True
+                    continue
+                if x == (name == "any"):
+                    if open_:
+                        break
+                    return name == "any"
+            if open_:
+                return Unknown(f"{name}() of conditions that are not decided")
+            return name != "any"
         if name in ("set", "frozenset") and not args and not kwargs:
             return ListV([], unordered=True)
         if name == "dict" and not args and not kwargs:
